@@ -180,6 +180,11 @@ func (w *walker) stmt(s ast.Stmt, st state) state {
 		for _, r := range x.Rhs {
 			w.expr(r, false, &st)
 		}
+		if len(x.Lhs) == len(x.Rhs) {
+			for i, l := range x.Lhs {
+				w.retention(l, x.Rhs[i], &st)
+			}
+		}
 		for _, l := range x.Lhs {
 			if id, ok := unparen(l).(*ast.Ident); ok {
 				if x.Tok != token.DEFINE {
@@ -470,4 +475,47 @@ func (w *walker) deferStmt(d *ast.DeferStmt, st *state) {
 	// receiver and arguments are evaluated now; the call happens at exit
 	w.callEx(c, st, 2)
 	st.defers = append(st.defers, deferItem{node: d, call: c})
+}
+
+// retention: `x.f = p` / `x.f = p[a:b]` where p is a slice-typed PARAMETER (for a variadic parameter: the caller's own
+// slice when it spreads one) stores the caller's memory in the library's state without copying it. Reported as a
+// write fact on the synthetic field "<f> <- caller's slice <p>", which has no guard-table entry and therefore fails
+// guard_ok (only this direct syntactic shape is recognised).
+func (w *walker) retention(lhs, rhs ast.Expr, st *state) {
+	a := w.a
+	sel, ok := unparen(lhs).(*ast.SelectorExpr)
+	if !ok {
+		return
+	}
+	s := a.info.Selections[sel]
+	if s == nil || s.Kind() != types.FieldVal {
+		return
+	}
+	owner := a.ownerOf(s)
+	if owner == "" {
+		return
+	}
+	r := unparen(rhs)
+	if sl, ok := r.(*ast.SliceExpr); ok {
+		r = unparen(sl.X)
+	}
+	id, ok := r.(*ast.Ident)
+	if !ok {
+		return
+	}
+	v, ok := a.info.Uses[id].(*types.Var)
+	if !ok || !a.sliceParam[v] {
+		return
+	}
+	if root, _, pok := a.pathOf(sel.X); pok && a.freshVar[root] && sel.Pos() < a.escapePos[root] {
+		return // stored into an object that is still private to this call
+	}
+	name := sel.Sel.Name + " <- caller's slice " + id.Name
+	key := factKey{sel.Sel.Pos(), name, 'W'}
+	if f := a.facts[key]; f != nil {
+		f.ls = meetLS(f.ls, st.ls)
+		return
+	}
+	a.facts[key] = &fact{fn: w.top.name, lit: w.lit, strct: owner, field: name, kind: 'W', ls: st.ls.clone(),
+		pos: a.fset.Position(sel.Sel.Pos())}
 }
